@@ -34,7 +34,7 @@
 (*            d    the descriptor  [k, ns, nf, c1, c2, n, m, par, opt, nt] *)
 (* actions    PickKernel PickShape PickBigShape PickStripShape PickSize    *)
 (*            PickContent PickContent2 PickSize2 PickParam PickOption      *)
-(*            PickThreads Finish                                           *)
+(*            PickThreads PickHugeShape Finish                             *)
 (*            (one action per choice; the reachable graph is a tree whose  *)
 (*            leaves are the descriptors)                                  *)
 (* invariants TypeOK                                                       *)
@@ -51,7 +51,15 @@
 (*                 every (shape, nt) of the lattice - the reason why the   *)
 (*                 walk leaves no cell of `labels` unwritten; the binding  *)
 (*                 observes the consequence (no poison survives, result =  *)
-(*                 steepest-ascent definition = single-thread result)      *)
+(*                 steepest-ascent definition = single-thread result).     *)
+(*                 Thorough adds the one call where the products do NOT    *)
+(*                 fit (HugeShapes: 2^24 pixels on 128 threads); like      *)
+(*                 IntFits this is no documented precondition, so the call *)
+(*                 is emitted, with partfits = FALSE for attribution       *)
+(*            ThreadInv  a call that carries a thread count lies in        *)
+(*                 ThreadScope (a kernel of ParK, a small / strip shape    *)
+(*                 with a dense content, a non-empty list) and shares out  *)
+(*                 at least one element                                    *)
 (*            Emit  prints one JSON line per descriptor; descriptors with  *)
 (*                 <= 16 pixels / <= 4 entries carry the materialised      *)
 (*                 arrays (masks, labels by the independent closure        *)
@@ -60,8 +68,13 @@
 (* ASSUME     the kernel families partition PyfFunctions \ Exempt (the     *)
 (*            list transcribed from the pyf; the harness compares it with  *)
 (*            the attributes of the real module), every kernel has an      *)
-(*            Outputs entry and at least one well-formed descriptor        *)
-(* bounds     Thorough = FALSE/TRUE selects the shape and size sets        *)
+(*            Outputs entry and at least one well-formed descriptor;       *)
+(*            every kernel of ParK meets each relation one / gtE / ndiv /  *)
+(*            div / div64 between thread count and trip count somewhere in *)
+(*            its lattice (the harness re-counts this on the executed      *)
+(*            calls); the HugeShapes are exactly where Tiles fails         *)
+(* bounds     Thorough = FALSE/TRUE selects the shape, size and thread     *)
+(*            count sets                                                   *)
 (***************************************************************************)
 EXTENDS Integers, Sequences, FiniteSets, TLC, Json
 
@@ -167,6 +180,12 @@ Shapes == {<<1, 1>>, <<1, 3>>, <<3, 1>>, <<2, 2>>, <<2, 3>>, <<3, 2>>, <<3, 3>>,
                                   <<4, 7>>, <<7, 4>>, <<3, 2 * Chunk>>} ELSE {})
 BigShapes == {<<150, 260>>, <<262, 260>>} \cup (IF Thorough THEN {<<512, 512>>, <<300, 300>>} ELSE {})   \* 150x260: one growth of the disjoint set (> 16384 provisional labels), 262x260: two (> 32768)
 BigContents == {"chk0", "dots", "full", "hstr"}
+\* thin strips, 3 or 5 pixels across or high, pixel counts 192 .. 5005 (quick): a thread's share of npx / nt pixels
+\* is shorter than, as long as, or several rows longer than one image row, and what is left over, npx % nt, reaches
+\* from nothing (64 * w over 16 threads, 1001 * w over 7) to several whole rows (345 * 3 = 64 * 16 + 11)
+StripShapes == LET L == {64, 211, 345, 1001} \cup (IF Thorough THEN {4099} ELSE {})
+                   W == {3, 5} \cup (IF Thorough THEN {2, 9, 20} ELSE {})
+               IN {<<n, w>> : n \in L, w \in W} \cup {<<w, n>> : n \in L, w \in W}
 
 Contents == {"empty", "full", "chk0", "chk1", "tl", "tr", "bl", "br", "ctr", "row0", "rowN", "col0", "colN",
              "hstr", "vstr", "diag", "gap", "dots", "corners"}
@@ -216,7 +235,7 @@ C2s(k) == CASE k = "bloboverlaps"                                     -> {"same"
             [] OTHER                                                  -> {"-"}
 Ns(k) == CASE k \in {"score", "score_and_refine", "score_and_assign", "refine_assigned", "score_gvec_z",
                      "compute_gv", "compute_geometry", "compute_xlylzl"}      -> PeakNs
-           [] k = "closest_vec"                                               -> {0, 1, 2, 3, Chunk + 1}
+           [] k = "closest_vec"                                               -> {0, 1, 2, 3, Chunk, Chunk + 1}
            [] k = "closest"                                                   -> PeakNs
            [] k = "cluster1d"                                                 -> PeakNs
            [] k \in {"compress_duplicates", "put_incr32", "put_incr64", "reorder_u16_a32", "reorder_f32_a32",
@@ -294,11 +313,59 @@ A0(par, ns, nf, i) == CASE par = "ident" -> i * nf [] par = "revrow" -> (ns - 1 
 A1(par, j) == IF j = 0 THEN 0 ELSE IF par = "revall" THEN -1 ELSE 1
 A16Addr(par, ns, nf, i, j) == A0(par, ns, nf, i) + (IF par = "revall" THEN -j ELSE j)     \* a0 + sum of a1[i][0..j]
 
+\* ---- OpenMP: who runs in parallel, with how many threads, sharing out what ---------------------------
+\* kernels whose C body (or a helper it calls: neighbormax, clean_mask) holds a `#pragma omp parallel`; the harness
+\* derives the same set from the source of the tree under test
+ParK == {"compute_geometry", "compute_gv",                                              \* cdiffraction.c:62,143
+         "closest_vec", "score_and_assign", "score_gvec_z",                             \* closest.c:142,374,640
+         "connectedpixels", "clean_mask", "make_clean_mask",                            \* connectedpixels.c:173,482,506,580
+         "localmaxlabel",                                                               \* localmaxlabel.c:59,152,200
+         "mask_to_coo",                                                                 \* sparse_image.c:43,60
+         "uint16_to_float_darksub", "uint16_to_float_darkflm", "frelon_lines", "frelon_lines_sub",
+         "array_mean_var_cut", "array_mean_var_msk", "array_stats", "reorder_u16_a32", "reorder_f32_a32",
+         "reorderlut_u16_a32", "reorderlut_f32_a32", "reorder_u16_a32_a16", "bgcalc"}   \* darkflat.c:53-582
+ASSUME ParK \subseteq Kernels
+\* thread counts: 1, small ones, primes that divide no shape of the lattice, the machine's 16, more than the machine has
+NT == {1, 2, 3, 7, 16, 31, 64} \cup (IF Thorough THEN {4, 5, 8, 13, 32, 100} ELSE {})
+\* one parameter class on the big / strip shapes and on every call with a chosen thread count
+BigPars(k) == IF k \in {"frelon_lines", "frelon_lines_sub"} THEN {"mid"}
+              ELSE IF k = "reorder_u16_a32_a16" THEN {"ident", "revall"}
+              ELSE Pars(k) \cap {"zero", "exact", "one", "ramp", "-"}
+ThreadShapes == {s \in Shapes : s[1] * s[2] <= 2 * Chunk} \cup StripShapes
+\* a frame of 2^24 pixels on 128 threads (a 16-Mpixel detector on a 128-thread node): npx * nt = 2^31
+HugeShapes == IF Thorough THEN {<<4096, 4096>>} ELSE {}
+HugeNT == 128
+\* calls that carry a thread count: every non-empty list size / parameter class of the 1-D kernels; images on the small and the
+\* strip shapes with the four dense contents and one parameter class
+ThreadScope(x) == /\ x.k \in ParK
+                  /\ Fam(x.k) = "img" => /\ <<x.ns, x.nf>> \in ThreadShapes \cup HugeShapes
+                                         /\ x.c1 \in BigContents /\ x.par \in BigPars(x.k)
+                  /\ Fam(x.k) # "img" => x.n >= 1                 \* (empty lists are refused by the wrappers)
+\* the trip count of the (widest) loop the threads share out: pixels, image rows, list entries
+PxLoop(k) == k \in {"clean_mask", "make_clean_mask", "localmaxlabel"}
+Trip(x) == IF PxLoop(x.k) THEN x.ns * x.nf ELSE IF Fam(x.k) = "img" THEN x.ns ELSE x.n
+NtTag(E, nt) == IF nt = 1 THEN "one" ELSE IF nt > E THEN "gtE" ELSE IF E % nt # 0 THEN "ndiv"
+                ELSE IF (E \div nt) % 64 = 0 THEN "div64" ELSE "div"
+ThreadTags == {"one", "gtE", "ndiv", "div64", "div"}
+\* the hand-written split of localmaxlabel.c:215-216: thread t walks the pixels Lo(t) .. Lo(t + 1) - 1
+Lo(E, nt, t) == (E * t) \div nt
+Tiles(E, nt) == /\ E <= 2147483647 \div nt                                  \* npx * (tid + 1) is formed in `int`
+                /\ Lo(E, nt, 0) = 0 /\ Lo(E, nt, nt) = E
+                /\ \A t \in 0..(nt - 1) : Lo(E, nt, t) <= Lo(E, nt, t + 1)    \* consecutive ranges: a partition of 0..E-1
+PartFits(x) == (x.k = "localmaxlabel" /\ x.nt > 0) => Tiles(x.ns * x.nf, x.nt)
+ASSUME \A s \in HugeShapes : ~Tiles(s[1] * s[2], HugeNT)        \* (the first conjunct fails; the rest is not evaluated)
+
 \* ---- state ------------------------------------------------------------------------------------
 VARIABLES pc, d
 vars == <<pc, d>>
-D0 == [k |-> "-", ns |-> 0, nf |-> 0, c1 |-> "-", c2 |-> "-", n |-> 0, m |-> 0, par |-> "-", opt |-> 0, big |-> FALSE]
-Stages == {"kernel", "shape", "c1", "c2", "n", "m", "par", "opt", "finish", "done"}
+D0 == [k |-> "-", ns |-> 0, nf |-> 0, c1 |-> "-", c2 |-> "-", n |-> 0, m |-> 0, par |-> "-", opt |-> 0, big |-> FALSE,
+       nt |-> 0]
+Stages == {"kernel", "shape", "c1", "c2", "n", "m", "par", "opt", "nt", "finish", "done"}
+\* every parallel kernel meets every relation between thread count and trip count somewhere in its lattice
+TripsOf(k) == IF Fam(k) = "img"
+              THEN {Trip([D0 EXCEPT !.k = k, !.ns = s[1], !.nf = s[2]]) : s \in {s \in ThreadShapes : s[1] >= MinR(k) /\ s[2] >= MinC(k)}}
+              ELSE Ns(k) \ {0}
+ASSUME \A k \in ParK : \A tg \in ThreadTags : \E E \in TripsOf(k), nt \in NT : NtTag(E, nt) = tg
 
 Init == pc = "kernel" /\ d = D0
 
@@ -312,6 +379,9 @@ PickShape(s) == /\ pc = "shape" /\ s[1] >= MinR(d.k) /\ s[2] >= MinC(d.k)
                 /\ d' = [d EXCEPT !.ns = s[1], !.nf = s[2]] /\ pc' = "c1"
 PickBigShape(s) == /\ pc = "shape" /\ Big(d.k)
                    /\ d' = [d EXCEPT !.ns = s[1], !.nf = s[2], !.big = TRUE] /\ pc' = "c1"
+\* thin strips for the kernels that share their pixels / rows out (big = TRUE: four contents, one parameter class)
+PickStripShape(s) == /\ pc = "shape" /\ d.k \in ParK /\ s[1] >= MinR(d.k) /\ s[2] >= MinC(d.k)
+                     /\ d' = [d EXCEPT !.ns = s[1], !.nf = s[2], !.big = TRUE] /\ pc' = "c1"
 PickContent(c) == /\ pc = "c1" /\ (d.big => c \in BigContents)
                   \* sparse_smooth scans three whole rows per pixel: on very wide images only few-pixel contents
                   /\ (d.k = "sparse_smooth" /\ d.nf > 2 * Chunk => c \in FewPixels)
@@ -323,9 +393,17 @@ PickContent2(c) == /\ pc = "c2" /\ c \in C2s(d.k) /\ d' = [d EXCEPT !.c2 = c]
 PickSize(n) == /\ pc = "n" /\ n \in Ns(d.k) /\ d' = [d EXCEPT !.n = n] /\ pc' = "m"
 PickSize2(m) == /\ pc = "m" /\ m \in Ms(d.k, d.n) /\ d' = [d EXCEPT !.m = m] /\ pc' = "par"
 PickParam(p) == /\ pc = "par" /\ p \in Pars(d.k)
-                /\ (d.big => p \in {"zero", "exact", "one", "ramp", "-"})        \* one parameter class on big shapes
+                /\ (d.big => p \in BigPars(d.k))                \* one parameter class on big / strip shapes
                 /\ d' = [d EXCEPT !.par = p] /\ pc' = "opt"
-PickOption(o) == /\ pc = "opt" /\ o \in Opts(d.k) /\ d' = [d EXCEPT !.opt = o] /\ pc' = "finish"
+PickOption(o) == /\ pc = "opt" /\ o \in Opts(d.k) /\ d' = [d EXCEPT !.opt = o]
+                 /\ pc' = IF d.k \in ParK THEN "nt" ELSE "finish"
+\* nt = 0: the call runs with whatever the process has (the harness sweeps 1 / 4 / 16 over a sample of those)
+PickThreads(nt) == /\ pc = "nt" /\ (nt = 0 \/ (nt \in NT /\ ThreadScope(d)))
+                   /\ d' = [d EXCEPT !.nt = nt] /\ pc' = "finish"
+\* the one call whose work split does not fit an int (all choices at once: full content, ramp, HugeNT threads)
+PickHugeShape(s) == /\ pc = "shape" /\ d.k = "localmaxlabel"
+                    /\ d' = [d EXCEPT !.ns = s[1], !.nf = s[2], !.big = TRUE, !.c1 = "full", !.par = "ramp", !.nt = HugeNT]
+                    /\ pc' = "finish"
 
 \* ---- materialised arrays of a descriptor -----------------------------------------------------
 Npx(x) == x.ns * x.nf
@@ -443,20 +521,25 @@ AllOpts == UNION {Opts(k) : k \in Kernels}
 Next == \/ \E k \in Kernels : PickKernel(k)
         \/ \E s \in Shapes : PickShape(s)
         \/ \E s \in BigShapes : PickBigShape(s)
+        \/ \E s \in StripShapes : PickStripShape(s)
+        \/ \E s \in HugeShapes : PickHugeShape(s)
         \/ \E c \in Contents : PickContent(c)
         \/ \E c \in AllC2 : PickContent2(c)
         \/ \E n \in AllNs : PickSize(n)
         \/ \E m \in AllMs : PickSize2(m)
         \/ \E p \in AllPars : PickParam(p)
         \/ \E o \in AllOpts : PickOption(o)
+        \/ \E nt \in NT \cup {0} : PickThreads(nt)
         \/ Finish \/ Reject
 Spec == Init /\ [][Next]_vars
 
 \* ---- invariants ---------------------------------------------------------------------------------
 TypeOK == /\ pc \in Stages \cup {"illformed"}
           /\ d.k \in Kernels \cup {"-"} /\ d.ns \in Nat /\ d.nf \in Nat /\ d.n \in Nat /\ d.m \in Nat
-          /\ d.big \in BOOLEAN
+          /\ d.big \in BOOLEAN /\ d.nt \in NT \cup {0, HugeNT}
 WellFormedInv == pc = "done" => WellFormed(d)
+PartitionInv == (pc = "done" /\ <<d.ns, d.nf>> \notin HugeShapes) => PartFits(d)
+ThreadInv == (pc = "done" /\ d.nt > 0) => ThreadScope(d) /\ Trip(d) >= 1
 \* coverage: every kernel of the interface has a well-formed descriptor in the smallest scope
 HasCall(k) == IF Fam(k) \in {"img", "sparse"}
               THEN \E s \in Shapes, c \in Contents, c2 \in C2s(k), p \in Pars(k), o \in Opts(k) :
@@ -517,11 +600,17 @@ MatVec(x) ==
     [] OTHER -> [none |-> 0]
 
 Emit == (pc = "done" /\ EmitOn) =>
-          PrintT("@@" \o ToJson([d |-> d, intfits |-> IntFits(d),
-                                 mat |-> IF SmallImg(d) THEN MatImg(d) ELSE IF SmallVec(d) THEN MatVec(d) ELSE [none |-> 0]]))
+          PrintT("@@" \o ToJson([d |-> d, intfits |-> IntFits(d), partfits |-> PartFits(d),
+                                 \* relation of the thread count to the trip count (calls that carry a thread count)
+                                 thr |-> IF d.nt > 0 THEN [E |-> Trip(d), tag |-> NtTag(Trip(d), d.nt),
+                                                           gtrows |-> (Fam(d.k) = "img" /\ d.nt > d.ns)]
+                                         ELSE [E |-> 0, tag |-> "-", gtrows |-> FALSE],
+                                 \* the materialised arrays do not depend on the thread count: once, with nt = 0
+                                 mat |-> IF d.nt > 0 THEN [none |-> 0]
+                                         ELSE IF SmallImg(d) THEN MatImg(d) ELSE IF SmallVec(d) THEN MatVec(d) ELSE [none |-> 0]]))
 \* the interface table, once (initial state)
 EmitInterface == (pc = "kernel" /\ EmitOn) =>
           PrintT("@@" \o ToJson([interface |-> PyfFunctions, exempt |-> Exempt,
-                                 outputs |-> [k \in Kernels |-> DOMAIN Outputs(k)],
+                                 outputs |-> [k \in Kernels |-> DOMAIN Outputs(k)], parallel |-> ParK, nts |-> NT,
                                  family |-> [k \in Kernels |-> Fam(k)]]))
 =============================================================================
